@@ -302,6 +302,28 @@ func factsStores() {
 	})
 	emitStr("storesOverlapsClosedInterval", "pkg/store/bucket.go bucketBlock.overlapsClosedInterval: which blocks LabelNames / LabelValues look at", overlap)
 
+	// ---- C07: which blocks the label calls skip (the `continue` conditions at the top of their block loops)
+	for _, name := range []string{"LabelNames", "LabelValues"} {
+		var conds []string
+		if fd := fn(bucket, "BucketStore", name); fd != nil && fd.Body != nil {
+			ast.Inspect(fd.Body, func(n ast.Node) bool {
+				rs, ok := n.(*ast.RangeStmt)
+				if !ok || text(rs.X) != "s.blocks" {
+					return true
+				}
+				for _, st := range rs.Body.List {
+					if ifs, ok := st.(*ast.IfStmt); ok && len(ifs.Body.List) == 1 {
+						if br, ok := ifs.Body.List[0].(*ast.BranchStmt); ok && br.Tok == token.CONTINUE {
+							conds = append(conds, text(ifs.Cond))
+						}
+					}
+				}
+				return false
+			})
+		}
+		emitList("stores"+name+"BlockFilter", "pkg/store/bucket.go BucketStore."+name+": the conditions under which a block is skipped", conds)
+	}
+
 	// ---- C09 / C10: the skeleton of blockSeriesClient.nextBatch
 	var loopBody, tail []string
 	if nb := fn(bucket, "blockSeriesClient", "nextBatch"); nb != nil && nb.Body != nil {
